@@ -69,6 +69,17 @@ def cond_doubling(k):
     return e
 
 
+def argref_computed(k):
+    """a shared delayed expression whose top node is an *argument reference with a computed position* (args[a0 + a0] with
+    a0 = 0), handed over in tail position and used twice at every level: k + 1 additions, not 3^k (seeded change S13i let
+    literals and references bypass the memo check at the start of interpret)"""
+    add = "ㄱㅇㄱ ㄱㅇㄱ ㄷㅎㄷ"
+    body = add
+    for _ in range(k):
+        body = f"{add} ㅇㄱ ({body} ㅎ) ㅎㄴ"
+    return f"ㄱ ({body} ㅎ) ㅎㄴ"
+
+
 def doubling(k):
     """((λx. x + x) ((λx. x + x) (… 1)))  — value 2^k, shares each level's argument twice"""
     e = "ㄴ"
@@ -120,7 +131,8 @@ def cases(rng, tier):
     yield Case(program=identity_share(1), mode='events', tag='identity', monitor='c13_once')
     # every family again without an observer, counting evaluation starts
     for k in ([2, 5, 9, 14] if tier == 'quick' else [2, 5, 9, 14, 20, 40, 80]):
-        for name, prog in (('doubling', doubling(k)), ('fanout', fanout(k)), ('cond-doubling', cond_doubling(k))):
+        yield Case(program=argref_computed(k), mode='events', tag='argref-computed', monitor='c13_once', data=('argref-computed', k), timeout=30)
+        for name, prog in (('doubling', doubling(k)), ('fanout', fanout(k)), ('cond-doubling', cond_doubling(k)), ('argref-computed', argref_computed(k))):
             yield Case(program=prog, tag='count-' + name, monitor='c13_count', data=(name, k), timeout=30, skip_model=(name != 'cond-doubling'))
         yield Case(program=cond_doubling(k), mode='events', tag='cond-doubling', monitor='c13_once', data=('cond-doubling', k), timeout=30)
         for kind in ('int', 'list', 'fn', 'io-return', 'str0', 'exc'):
